@@ -133,6 +133,28 @@ func runC18(cx *Ctx, r *Report) {
 	// ---------------- begin blocker
 	{
 		evs := per["BeginBlock"]
+		// the general per-entry rule of C13, restricted to the random queue: it follows the
+		// per-entry body wherever it is spelled (loop body, callback handed to a walker)
+		sharedDeq, sharedDrain := false, false
+		{
+			sub := newReport("C18", r.Tier)
+			walks := map[string]*c13Walk{}
+			cx.c13DequeueRule(sub, func(e Entry) *c13Walk {
+				k := entryKey(&e)
+				if walks[k] == nil {
+					ee := e
+					walks[k] = cx.c13WalkEntry(&ee, sub)
+				}
+				return walks[k]
+			}, func(q c13Queue) bool { return q.mod == "random" })
+			bad := map[string]bool{}
+			for _, v := range sub.Viols {
+				bad[v.Rule] = true
+			}
+			clean := len(sub.ToolErrs) == 0
+			sharedDeq = clean && sub.ruleCount["dequeue"] > 0 && !bad["dequeue"]
+			sharedDrain = clean && sub.ruleCount["drain-complete"] > 0 && !bad["drain-complete"]
+		}
 		deq := pick(evs, "store.delete", func(x hev) bool { return hasPrefix(x.ev, rndQueue) })
 		set := pick(evs, "store.set", func(x hev) bool { return hasPrefix(x.ev, rndResult) })
 		iter := pick(evs, "store.iter", func(x hev) bool { return hasPrefix(x.ev, rndQueue) })
@@ -151,12 +173,15 @@ func runC18(cx *Ctx, r *Report) {
 				s1, s2 := liftTo(deq[0].ev, top), liftTo(deq[1].ev, top)
 				okLoop = s1 != nil && s2 != nil && perIterationMust([]ssa.Instruction{s1, s2})
 			}
-			r.check(okLoop, "dequeue-every-iteration", "BeginBlock", deq[0].ev.Pos(cx), "every path through the begin blocker's loop body deletes the queue entry being handled", "a path through the begin blocker's loop body does not dequeue the handled request: it would be handled again or never")
+			r.check(okLoop || sharedDeq, "dequeue-every-iteration", "BeginBlock", deq[0].ev.Pos(cx), "every path through the begin blocker's loop body deletes the queue entry being handled", "a path through the begin blocker's loop body does not dequeue the handled request: it would be handled again or never")
 			// the loop drains the whole bucket: its only exit is the iterator running out. The
 			// bucket of a height is looked at in one block only, so whatever a break or an
 			// early return leaves behind is never served. The loop holding the dequeues must be
 			// the loop that walks the iterator, or the range over a snapshot of the bucket
 			// taken by a read-only collector that appends every entry.
+			if top == nil && sharedDeq {
+				r.check(sharedDrain, "drain-complete", "BeginBlock", deq[0].ev.Pos(cx), "the walk over the due requests ends only when the iterator is exhausted (the per-entry callback never asks to stop)", "the walk over the due requests can end early: the remaining requests of that height are never looked at again (only the previous height's bucket is scanned) - they get no result and stay queued forever")
+			}
 			if top != nil {
 				s1 := liftTo(deq[0].ev, top)
 				h := loopHeaderOf(s1.Block())
